@@ -39,7 +39,11 @@ func new48neg() *Term { return nil }
 
 // symArg creates the symbolic value of a parameter.
 func (ex *Exec) symArg(name string, t types.Type, pi *ParamInfo) Value {
-	pre := "in." + name
+	pre := "in." + ex.argPrefix + name
+	maxLen := pow48
+	if n, ok := ex.cfg.maxLen[name]; ok {
+		maxLen = bi(n)
+	}
 	refLo := MulC(bi(-1), Int(1)).k // placeholder
 	_ = refLo
 	lo := bi(-(1 << 40))
@@ -61,7 +65,7 @@ func (ex *Exec) symArg(name string, t types.Type, pi *ParamInfo) Value {
 	switch u := t.Underlying().(type) {
 	case *types.Slice:
 		s := SliceV{Arr: Var(pre+".arr", SInt, lo, bi(0)), Off: Var(pre+".off", SInt, bi(0), pow48),
-			Len: Var(pre+".len", SInt, bi(0), pow48), Cap: Var(pre+".cap", SInt, bi(0), pow48), Elem: u.Elem()}
+			Len: Var(pre+".len", SInt, bi(0), maxLen), Cap: Var(pre+".cap", SInt, bi(0), pow48), Elem: u.Elem()}
 		ex.assumeSliceWF(s)
 		ex.inputArr[s.Arr.id] = true
 		pi.Slice = &s
@@ -107,6 +111,7 @@ func (P *Program) VerifyFunction(fn *ssa.Function, cfg *RunCfg, opts VerifyOpts)
 	for round := 1; ; round++ {
 		res.Rounds = round
 		ex = P.newExecFromInit(cfg)
+		ex.argPrefix = fn.Name() + "."
 		res.Params = nil
 		var args []Value
 		for _, p := range fn.Params {
@@ -268,6 +273,9 @@ func (r *FnResult) Print(verbose bool) {
 	for _, o := range r.Obls {
 		if o.Status != "discharged" || verbose {
 			fmt.Printf("   [%s] %s (%s, %d ms)\n", o.Status, o.Name, o.Solver, o.Millis)
+			if o.Class == "assert" && verbose && o.Goal != nil {
+				fmt.Printf("        goal: %s\n", o.Goal.StringLimit(1500))
+			}
 			if o.Class == "variant" {
 				fmt.Printf("        %s\n", o.Raw)
 			}
